@@ -4,7 +4,7 @@
    table_swap, table_primes, table_load_* come from Generated.v, re-extracted from the C source on
    every run: if Float_Hash or Table_Cmp go back to their pinned shape the two booleans become
    `false` and the statements below no longer type-check against the lemmas. *)
-From CelloV Require Import Generated RobinHood TableModel HashModel HashFloat HashProofs HashTable.
+From CelloV Require Import Generated RobinHood TableModel TableProofs HashModel HashFloat HashProofs HashTable.
 
 (* eq(a,b) implies hash(a) = hash(b): all well-formed values (int64, non-NaN doubles, strings, types,
    Ref/Box, plain structs, Array/List/Tuple/Table/Tree of them, nested, across kinds) *)
@@ -141,6 +141,41 @@ Example int_table_copy_nonvacuous :
     emb t = ((VInt 3, VSeq KList (VFloat 0 :: nil)) :: (VInt 7, VStr (72 :: 105 :: nil)%N) :: nil).
 Proof. exact HashTable.int_table_nonvacuous. Qed.
 
+(* ... and, with C02's refinement theorem, for EVERY construction history (set / rem / get / mem /
+   resize / copy from the empty table): the hypothesis on the state disappears *)
+Theorem int_table_copy_after_any_history : forall (hash : Z -> N) (ops : list (op Z value)),
+  let t := T_run Z value Z.eqb hash ops in
+  entries_wf t ->
+  exists t', t_assign_from Z value Z.eqb hash table_swap table_primes table_load_num table_load_den t = Some t' /\
+    v_cmp table_cmp_by_lookup (VMap KTable (emb t')) (VMap KTable (emb t)) = Some 0%Z /\
+    v_cmp table_cmp_by_lookup (VMap KTable (emb t)) (VMap KTable (emb t')) = Some 0%Z /\
+    v_hash hash_m hash_r hash_seed float_hash_normalises_zero (VMap KTable (emb t')) =
+    v_hash hash_m hash_r hash_seed float_hash_normalises_zero (VMap KTable (emb t)) /\
+    length (emb t') = length (emb t).
+Proof. exact (HashTable.int_table_history_copy hash_m hash_r hash_seed). Qed.
+Print Assumptions int_table_copy_after_any_history.
+
+(* hash and eq are functions of the bindings alone: two histories (other insertion orders, removals,
+   reserves, copies, even other hash functions placing the keys) that leave the same bindings leave
+   tables that are eq in both directions and hash the same *)
+Theorem int_table_same_bindings_eq_and_hash : forall (hash1 hash2 : Z -> N) (ops1 ops2 : list (op Z value)),
+  let t1 := T_run Z value Z.eqb hash1 ops1 in
+  let t2 := T_run Z value Z.eqb hash2 ops2 in
+  Permutation.Permutation (spec_run Z value Z.eqb ops1 nil) (spec_run Z value Z.eqb ops2 nil) ->
+  entries_wf t1 ->
+  v_cmp table_cmp_by_lookup (VMap KTable (emb t1)) (VMap KTable (emb t2)) = Some 0%Z /\
+  v_cmp table_cmp_by_lookup (VMap KTable (emb t2)) (VMap KTable (emb t1)) = Some 0%Z /\
+  v_hash hash_m hash_r hash_seed float_hash_normalises_zero (VMap KTable (emb t1)) =
+  v_hash hash_m hash_r hash_seed float_hash_normalises_zero (VMap KTable (emb t2)).
+Proof. exact (HashTable.int_table_histories_eq_hash hash_m hash_r hash_seed). Qed.
+Print Assumptions int_table_same_bindings_eq_and_hash.
+
+Example histories_nonvacuous :
+  Permutation.Permutation (spec_run Z value Z.eqb hist1 nil) (spec_run Z value Z.eqb hist2 nil) /\
+  entries_wf (T_run Z value Z.eqb zt_hash hist1) /\
+  t_iter Z value (T_run Z value Z.eqb zt_hash hist1) <> t_iter Z value (T_run Z value Z.eqb zt_hash hist2).
+Proof. exact HashTable.histories_nonvacuous. Qed.
+
 (* the copy of a reachable table can list its bindings in another order (why the pinned Table_Cmp failed) *)
 Theorem copy_changes_slot_order :
   t_iter Z Z witness_table = ((3%Z, 2%Z) :: (7%Z, 1%Z) :: nil) /\
@@ -167,7 +202,7 @@ Print Assumptions table_walk_refuted.
    tail switch and finish of hash_data; Int_Hash; Float_Cmp; the five XOR folds; memswap and swap;
    copy = alloc + assign *)
 Theorem source_shapes_as_modelled :
-  hash_data_shape_ok && int_hash_shape_ok && float_cmp_shape_ok && xor_fold_shape_ok
+  hash_data_shape_ok && int_hash_shape_ok && hash_float_cmp_shape_ok && xor_fold_shape_ok
   && memswap_shape_ok && copy_shape_ok = true.
 Proof. exact (eq_refl true). Qed.
 Print Assumptions source_shapes_as_modelled.
